@@ -171,3 +171,8 @@ pub fn bigram_weight_table(model: &super::Model) -> Vec<(String, String, usize)>
     }
     out
 }
+
+/// The interning maps (unigram, left, right) of the feature extractor carried by `model`.
+pub fn model_feature_maps(model: &super::Model) -> IdMaps {
+    dump_maps(&model.data.config.feature_extractor)
+}
